@@ -97,6 +97,7 @@ func cmdRun(args []string) int {
 	tier := fs.String("tier", "quick", "tier")
 	budget := fs.Int("budget", 600, "seconds per harness")
 	replay := fs.Bool("replay", false, "replay counterexamples natively")
+	onlyDeep := fs.Bool("only-thorough", false, "with -tier thorough: skip configurations that are identical to their quick form")
 	fs.BoolVar(&verbose, "v", false, "verbose")
 	fs.Parse(args)
 	hdir := filepath.Join(verifRoot, "harness")
@@ -129,6 +130,9 @@ func cmdRun(args []string) int {
 		}
 		for _, h0 := range specs {
 			if !tierMatch(h0, *tier) {
+				continue
+			}
+			if *onlyDeep && h0.Tier != "thorough" && len(h0.TParams) == 0 {
 				continue
 			}
 			h := effective(h0, *tier)
